@@ -10,6 +10,27 @@ NOTE = ("Trusted: Coq 8.16.1 kernel (vm_compute, no native_compute), no axioms d
         "the model (tolerance 1e-9 in the correspondence); numpy/pandas/dags behaviour is modelled, not verified.")
 
 CLAIMS = {
+    "C04": dict(
+        text="Theorem (abstract engine, any column type, any node operations, any data): evaluation pruned to ANY argument-closed set of "
+             "names agrees with the full evaluation on that set, hence a common target has the same value under two target sets and "
+             "unused data columns do not matter. Obligations regenerated every run from the graph the REAL loader builds: topological "
+             "order + closedness of the default targets' ancestor sets. Engine runs: random target subsets vs all-nodes run "
+             "(bit-identical), extra columns, debug, minimal-specification option, result shape.",
+        technique="Coq proof (Engine.run_closed_subset) + reflective checks on the regenerated loader graph + differential engine runs",
+        design="6/C04"),
+    "C05": dict(
+        text="Theorem (abstract engine): removing a node and supplying its computed column as data leaves every column unchanged "
+             "(unique names premise discharged reflectively on the regenerated graph). Engine runs: per node, override with the computed "
+             "column, compare all default targets, require the warning; loader view: graph with the column supplied = graph minus node.",
+        technique="Coq proof (Engine.run_override) + reflective check on the regenerated loader graph + differential engine/loader runs",
+        design="6/C05"),
+    "C06": dict(
+        text="Theorem (abstract engine): replacing the operations of any set F of nodes changes only columns in the tainted set "
+             "(F and everything reading a tainted column); Dag.descendants is proved equal to that set. Engine runs: per parameter group "
+             "and per rule, perturb / replace and compare every column outside the descendants bit-identically; identical copies change "
+             "nothing; parameter groups share no mutable object.",
+        technique="Coq proof (Engine.run_taint) + descendants computed on the regenerated loader graph + differential reform runs",
+        design="6/C06"),
     "C07": dict(
         text="Theorems: the entry used is the most recent one on or before the date; it is constant between change dates; "
              "validity intervals are inclusive; val_eqb is Leibniz equality. Obligations regenerated every run and discharged by "
